@@ -79,6 +79,7 @@ CONSTANTS
   MaxTicks = %(ticks)d
   LeaveAfter = %(leave)d
   MinTs = %(mints)d
+  NoFuture = %(nofuture)s
   StoresPerTick = %(spt)d
 %(inv)s
 CHECK_DEADLOCK FALSE
@@ -175,7 +176,8 @@ def model_check(tier, pool):
                                     ('cursor_stuck', 'NoDuplicate', [], ['ok']), ('silent_refusal', 'RefusalIsAnError', [], ['empty'])):
         jobs.append(pool.submit(mc_run, 'cex_%s_%s' % (dev, (faults or ['none'])[0]), 'MC_TailSched.tla', CFG_SCHED % {
             'lines': ints(2), 'maxt': 4, 'dev': q([dev]), 'faults': q(faults), 'kinds': q(kinds), 'ticks': 3, 'leave': 99, 'spt': 2,
-            'mints': 2 if dev == 'cursor_stuck' else 0, 'inv': 'INVARIANTS ' + inv}, inv, 600, 2))
+            'mints': 2 if dev == 'cursor_stuck' else 0,
+            'nofuture': 'TRUE' if dev == 'cursor_stuck' else 'FALSE', 'inv': 'INVARIANTS ' + inv}, inv, 600, 2))
     jobs.append(pool.submit(mc_run, 'cex_spin_liveness', 'MC_Tail.tla', CFG_MC % {
         'lines': ints(1), 'maxt': 2, 'dev': q(['spin_on_closed']), 'wire': 1, 'kinds': q(['ok']),
         'inv': '', 'props': 'PROPERTIES ClosedEndsHandler'}, '*', 600, 2))
@@ -189,7 +191,7 @@ def simulate(kinds, n, depth, seed, ticks, leave, lines=4, maxt=6):
     try:
         cfgp = os.path.join(sd, 'sim.cfg')
         open(cfgp, 'w').write(CFG_SCHED % {'lines': ints(lines), 'maxt': maxt, 'dev': q(ALLDEV), 'faults': q(FAULTS), 'kinds': q(kinds),
-                                           'ticks': ticks, 'leave': leave, 'spt': 1, 'mints': 0, 'inv': ''})
+                                           'ticks': ticks, 'leave': leave, 'spt': 1, 'mints': 0, 'nofuture': 'FALSE', 'inv': ''})
         res = vlib.tlc(SPECDIR, 'MC_TailSched.tla', 'sim.cfg', timeout=600, copy_extra=[cfgp], workers=2,
                        simulate={'num': n, 'file': True}, depth=depth, seed=seed)
         try:
@@ -328,11 +330,19 @@ def stratify(cands, n, rnd):
         keys = sorted(groups, key=str)
         rnd.shuffle(keys)
         keys.sort(key=lambda k: -(k[2] + 2 * k[3] + (4 if k[4] else 0)))
+        rich = [k for k in keys if k[2] >= 2]
+        poor = [k for k in keys if k[2] < 2]
         out = []
-        while len(out) < m and any(groups[k] for k in keys):
-            for k in keys:
-                if groups[k] and len(out) < m:
-                    out.append(groups[k].pop(rnd.randrange(len(groups[k]))))
+
+        def take(ks, upto):
+            ks = ks[:max(1, upto - len(out))]       # one per class, the richest classes first
+            while len(out) < upto and any(groups[k] for k in ks):
+                for k in ks:
+                    if groups[k] and len(out) < upto:
+                        out.append(groups[k].pop(rnd.randrange(len(groups[k]))))
+        take(rich, m - m // 6)
+        take(poor, m)                               # a few runs in which the client leaves before / right after the first tick
+        take(rich, m)
         return out, len(keys)
     a, ka = pick([c for c in cands if c['fault'] == 'none'], n - n * 2 // 5)
     b, kb = pick([c for c in cands if c['fault'] != 'none'], n * 2 // 5)
@@ -611,10 +621,18 @@ def run(tier):
                 stats['explained_by_deviation'] += 1
                 if cex:
                     stats['counterexamples_reproduced'].append(sc['meta']['origin'])
-                sig = 'as-coded|' + '+'.join(v['dev'])
-                msg = ('the recorded run of the real tail is not a behaviour of Tail.tla; it is one only if the as-coded branch(es) %s are taken: %s. '
-                       'Scenario: request %s, database fault %s at data query %d (cut %d), client %s'
-                       % (v['dev'], ' / '.join(DEV_TEXT[d] for d in v['dev']), sc['req'], sc['fault'], sc['fault_at'], sc['cut'], lv))
+                for dname in v['dev']:       # one finding per switch: the set of signatures does not depend on which switches meet in one run
+                    sig = 'as-coded|' + dname
+                    msg = ('the recorded run of the real tail is not a behaviour of Tail.tla; it is one only if the as-coded branch(es) %s are taken. %s: %s. '
+                           'Scenario: request %s, database fault %s at data query %d (cut %d), client %s'
+                           % (v['dev'], dname, DEV_TEXT[dname], sc['req'], sc['fault'], sc['fault_at'], sc['cut'], lv))
+                    if sig not in seen:
+                        seen[sig] = vlib.save_replay(PID, re.sub(r'[^A-Za-z0-9_+-]+', '_', sig) + '_seed%d' % seed,
+                                                     {'kind': 'recorded run + schedule (replay: x01 child < scenario)', 'scenario': sc, 'verdict': v,
+                                                      'events': res['events'][:400], 'trace': tr[:400], 'census_stacks': res.get('census_stacks'),
+                                                      'sql': res.get('sqls')})
+                    viols.append({'property': PID, 'signature': sig, 'msg': msg, 'replay': seen[sig]})
+                continue
             else:
                 stats['unexplained'] += 1
                 d = v['detail']
